@@ -1,4 +1,6 @@
 import NirVerif.Properties.C11
+import NirVerif.Lemmas.Construct
+import NirVerif.Model.File
 
 /-! # C12 — the graph-level interface always mirrors its Input and Output nodes
 
@@ -6,7 +8,7 @@ About `Model.mkGraph`, `Model.fromList`, `Model.inferTypes` (tied to the code by
 correspondence suite with operation histories).  Dict and file round trips rebuild the graph
 through `mkGraph` (`fromDict`), so they are covered by `init`; see C13 / C01. -/
 namespace NirVerif.C12
-open NirVerif NirVerif.Py NirVerif.Model
+open NirVerif NirVerif.Py NirVerif.Model NirVerif.Lemmas
 
 /-- `graph.inputs` / `graph.outputs`: exactly the children that are Input resp. Output. -/
 def inputsOf (g : Node) : Nodes := g.children.filter fun kv => kv.2.kind == "Input"
@@ -52,6 +54,82 @@ theorem infer_mirror (g : Node) (hg : Mirror g) : Mirror (inferTypes g).1 := by
   · exact hg
   · cases g with
     | mk k f i o m c e => exact ⟨rfl, rfl⟩
+
+/-- after `from_dict` / `read` (both rebuild a graph through the constructor): whatever the
+dictionary, a graph that comes out mirrors its Input/Output children -/
+theorem fromDict_mirror (d : Val) (g : Node) (h : fromDict d = .ok g) (hk : g.kind = "NIRGraph") : Mirror g := by
+  unfold fromDict at h
+  generalize Val.depth d + 1 = fuel at h
+  cases fuel with
+  | zero => simp [fromDictFuel] at h
+  | succ fuel =>
+    cases d with
+    | dict kvs =>
+      simp only [fromDictFuel, bind, Except.bind, pure, Except.pure] at h
+      repeat' split at h
+      all_goals (try cases h)
+      all_goals first
+        | exact init _ _ _
+        | (exfalso; have := (construct_kind _ _ _ h).1; rw [hk] at this; revert this; decide)
+        | (exfalso; have := (construct_kind _ _ _ h).1; rw [hk] at this; simp_all)
+        | skip
+    | _ => simp [fromDictFuel] at h
+
+/-- after `nir.read` -/
+theorem read_mirror (f : H5) (g : Node) (h : Model.read f = .ok g) (hk : g.kind = "NIRGraph") : Mirror g := by
+  unfold Model.read at h
+  simp only [bind, Except.bind] at h
+  split at h
+  · cases h
+  · exact fromDict_mirror _ g h hk
+
+/-- hence after any history of `from_dict(to_dict(·))`, `read(write(·))` and `infer_types`
+(each step either fails, leaving the graph as it was, or yields a graph that mirrors) -/
+inductive HistOp where | infer | dictRt | fileRt
+
+def applyOp (g : Node) : HistOp → Node
+  | .infer => (inferTypes g).1
+  | .dictRt => match (toDict g).bind fromDict with | .ok g' => g' | .error _ => g
+  | .fileRt => match (write "v" g).bind Model.read with | .ok g' => g' | .error _ => g
+
+theorem inferTypes_kind (g : Node) : (inferTypes g).1.kind = g.kind := by
+  unfold inferTypes
+  split
+  · rfl
+  · cases g; rfl
+
+/-- a node that is a graph mirrors its children (leaf primitives have no graph-level interface) -/
+def MirrorIfGraph (g : Node) : Prop := g.kind = "NIRGraph" → Mirror g
+
+theorem history_mirror (ops : List HistOp) (g : Node) (hg : MirrorIfGraph g) :
+    MirrorIfGraph (ops.foldl applyOp g) := by
+  induction ops generalizing g with
+  | nil => exact hg
+  | cons op rest ih =>
+    apply ih
+    cases op with
+    | infer =>
+      intro hk
+      rw [applyOp, inferTypes_kind] at hk
+      exact infer_mirror g (hg hk)
+    | dictRt =>
+      simp only [applyOp]
+      cases hd : toDict g with
+      | error e => simp [Except.bind]; exact hg
+      | ok d =>
+        simp only [Except.bind]
+        cases hf : fromDict d with
+        | error e => exact hg
+        | ok g' => exact fun hk => fromDict_mirror d g' hf hk
+    | fileRt =>
+      simp only [applyOp]
+      cases hw : write "v" g with
+      | error e => simp [Except.bind]; exact hg
+      | ok f =>
+        simp only [Except.bind]
+        cases hr : Model.read f with
+        | error e => exact hg
+        | ok g' => exact fun hk => read_mirror f g' hr hk
 
 def iterInfer : Nat → Node → Node
   | 0, g => g
